@@ -278,3 +278,11 @@ func Cleanup() {
 		os.RemoveAll(scratchDir)
 	}
 }
+
+func fmtPanic(e interface{}) string {
+	s := fmt.Sprint(e)
+	if len(s) > 300 {
+		s = s[:300]
+	}
+	return s
+}
